@@ -6,6 +6,7 @@
 package vx
 
 import (
+	"runtime/debug"
 	"bufio"
 	"crypto/sha256"
 	"encoding/binary"
@@ -266,6 +267,38 @@ func (r *Run) Violations() int { r.mu.Lock(); defer r.mu.Unlock(); return len(r.
 
 // Finish writes the part file (and the key sidecar) of this shard.
 func (r *Run) Finish() {
+	// Finish is the deferred call of every harness test: a panic that unwinds the
+	// test goroutine (not caught by the harness) must not end in a report that looks
+	// complete. The first maddy frame below the panic decides: code under test =>
+	// violation, harness code => harness error. The panic is not re-raised (the
+	// report carries it).
+	if p := recover(); p != nil {
+		st := string(debug.Stack())
+		site, harness := "?", true
+		seenPanic := false
+		for _, l := range strings.Split(st, "\n") {
+			if strings.HasPrefix(l, "panic(") {
+				seenPanic = true
+				continue
+			}
+			if !seenPanic || !strings.HasPrefix(l, "github.com/foxcpp/maddy/") {
+				continue
+			}
+			fn := l
+			if i := strings.LastIndex(fn, "("); i > 0 {
+				fn = fn[:i]
+			}
+			harness = strings.Contains(fn, "/internal/verif/") || strings.Contains(fn, "TestVerif") || strings.Contains(l, "zz_verif") || strings.Contains(fn, ".c0") || strings.Contains(fn, ".c1") || strings.Contains(fn, ".c2")
+			site = fn[strings.LastIndex(fn, "/")+1:]
+			break
+		}
+		fmt.Printf("PANIC in the test goroutine: %v\n%s\n", p, st)
+		if harness {
+			r.HarnessError(fmt.Sprintf("panic in harness code (%s): %v", site, p))
+		} else {
+			r.Violation(r.Prop+":panic-in-test-goroutine:"+site, fmt.Sprintf("panic: %v\n%s", p, st), map[string]any{"panic": fmt.Sprint(p)})
+		}
+	}
 	r.mu.Lock()
 	defer r.mu.Unlock()
 	if r.finished {
